@@ -1,6 +1,6 @@
 from abc import ABC, abstractmethod
 from matplotlib import pyplot as plt
-from numpy import array, ndarray, linspace, sqrt
+from numpy import array, ndarray, linspace, sqrt, interp
 from scipy.optimize import minimize
 from inference.pdf.hdi import sample_hdi
 
@@ -69,6 +69,39 @@ class DensityEstimator(ABC):
             options={"initial_simplex": simplex, "xatol": 1e-6 * w, "fatol": 1e-12},
             args=(fraction, weight),
         )
+        if result.fun > 1e-10:
+            # the search has stopped in a local minimum of the cost (the slope is flat on a
+            # shoulder, or next to a steep flank which the first steps jumped over): start
+            # again from the shortest interval of a grid which holds the fraction under
+            # the cumulative function, and keep the better of the two
+            lo, hi = self.sample.min(), self.sample.max()
+            lo, hi = lo - 0.25 * (hi - lo), hi + 0.25 * (hi - lo)
+            lwr = upr = None
+            for stage in range(2):  # (the second grid spans the interval found on the first)
+                x = linspace(lo, hi, 1025)
+                F = self.cdf(x)
+                ok = F + fraction <= F[-1]
+                if not ok.any():
+                    break
+                # (the end which goes with each grid point as a start, by interpolation)
+                ends = interp(F[ok] + fraction, F, x)
+                i = (ends - x[ok]).argmin()
+                lwr, upr = x[ok][i], ends[i]
+                dx = x[1] - x[0]
+                lo, hi = lwr - 2 * dx, upr + 2 * dx
+            if lwr is not None:
+                c, w = 0.5 * (lwr + upr), upr - lwr
+                # (first steps of the size of the grid spacing, to which this start is accurate)
+                simplex = array([[c, w], [c, w - dx], [c - dx, w]])
+                retry = minimize(
+                    fun=self.__hdi_cost,
+                    x0=simplex[0, :],
+                    method="Nelder-Mead",
+                    options={"initial_simplex": simplex, "xatol": 1e-6 * w, "fatol": 1e-12},
+                    args=(fraction, weight),
+                )
+                if retry.fun < result.fun:
+                    result = retry
         c, w = result.x
         return c - 0.5 * w, c + 0.5 * w
 
